@@ -69,7 +69,8 @@ package runner
 //@        && evIs(tlen() - 1, "internal/cmd/runner:printer.PrintAlignedLn")
 //@        && contains(evS3(tlen() - 1), itoa(len(grouperror.Collection(result))))
 
-//@ func (*StepVerboseSwitchable).Active
+// (declared `effect` so that the composition root's contract can say which step is switched by which flag)
+//@ func (*StepVerboseSwitchable).Active effect
 //@   property C16
 //@   modifies s.active
 //@   ensures [set] s.active == active && s.parent == old(s.parent) && s.printer == old(s.printer) && s.indenter == old(s.indenter)
